@@ -427,6 +427,8 @@ class AccessMixin(object):
         f = z3.Function('str_of', I, I)
         t = coerce(a, ANY) if isinstance(a, V) and a.ty.is_reflike else (a.t if isinstance(a, V) and a.ty.k == 'int' else None)
         yield st, (V(STR, f(t)) if t is not None else self.fresh_val(st, STR, 'str'))
+    elif name == 'hash':
+      yield st, V(INT, self.py_hash(st, cx, args[0]))
     elif name == 'isinstance':
       yield st, V(BOOL, self.isinstance_(st, args[0], args[1]))
     elif name == 'callable':
@@ -468,6 +470,27 @@ class AccessMixin(object):
       yield st, res
     else:
       raise Unsupported('builtin %s(...) (line %s)' % (name, getattr(node, 'lineno', '?')))
+
+  def py_hash(self, st, cx, v):
+    """hash(): the class's own __hash__ when the repository defines one, structural for tuples,
+    an uninterpreted function of the value otherwise (equal values hash equal)."""
+    if isinstance(v, V) and v.ty.k == 'ref':
+      fn, mod, owner = self.find_member(v.ty.name, '__hash__')
+      if fn is not None:
+        r = self.call_pure(st, cx, VFunc(fn, mod, owner, None, owner + '.__hash__'), [v], {})
+        return r.t
+      return z3.Function('hash_id', I, I)(v.t)
+    if isinstance(v, V) and v.ty.k == 'tuple':
+      parts = [self.py_hash(st, cx, it) for it in v.items]
+      f = z3.Function('hash_tuple%d' % len(parts), *([I] * (len(parts) + 1)))
+      return f(*parts)
+    if isinstance(v, V) and v.ty.k in ('int', 'bool'):
+      return num_term(v, False)
+    if isinstance(v, V) and v.ty.is_reflike:
+      return z3.Function('hash_val', I, I)(v.t)
+    if isinstance(v, V) and v.ty.k == 'none':
+      return z3.IntVal(0)
+    raise Unsupported('hash(%r)' % (v,))
 
   def always_truthy(self, ty):
     if ty.k == 'tuple':
